@@ -22,9 +22,11 @@ struct c02case {
 	int nreq;
 	bool fixed_cuts,guard;       // fixed_cuts: use `cuts` instead of random ones; guard: the bytes before the last cut are an
 	std::vector<int> cuts;       //   incomplete request, so nothing may be served before the last segment is sent
+	bool seen;                   // log what the application saw (Seen): it must be explainable by the bytes of this request;
+	                             //   a connection carrying a marker string precedes the case
 	int batch,bsize;             // batch: 0 single connection; 1/2/3 busy-loop batch (endings before the poll / between poll and
 	                             //   read handler / racing from a second thread) of bsize connections
-	c02case() : label("bad"),end('h'),nreq(1),fixed_cuts(false),guard(false),batch(0),bsize(0) {}
+	c02case() : label("bad"),end('h'),nreq(1),fixed_cuts(false),guard(false),seen(false),batch(0),bsize(0) {}
 };
 
 static void add(std::vector<c02case> &v,char const *cls,char const *label,std::string const &bytes,char end='h',int nreq=1)
@@ -74,6 +76,8 @@ static absreq base_filt() { absreq r=R(9003,"POST","/filt","/u",0); B(r,"text/pl
 static absreq with_cl(absreq r,std::string const &cl) { r.hascl=false; r.extra.insert(r.extra.begin(),mk("CONTENT_LENGTH",cl)); return r; }
 
 static void length_cross_cases(std::vector<c02case> &v,int proto,bool quick);
+static void scgi_odd_cases(std::vector<c02case> &v,bool quick);
+static void fcgi_odd_cases(std::vector<c02case> &v,bool quick);
 
 static void http_cases(std::vector<c02case> &v,bool quick,uint64_t seed)
 {
@@ -155,6 +159,7 @@ static void scgi_cases(std::vector<c02case> &v,bool quick,uint64_t seed)
 	add(v,"scgi-trailing-bytes","any",g+"trailing");
 	add(v,"scgi-valid","ok",g,'w'); add(v,"scgi-valid","ok",p,'w'); add(v,"scgi-valid","ok",f,'w');
 	add(v,"scgi-valid-halfclose","any",p);
+	scgi_odd_cases(v,quick);
 	length_cross_cases(v,SCGI,quick);
 	vt::rng r(seed*77+2);
 	int nr=quick?150:3000;
@@ -234,6 +239,7 @@ static void fcgi_cases(std::vector<c02case> &v,bool quick,uint64_t seed)
 	add(v,"fcgi-valid-halfclose","any",p);
 	fcgi_padded_cases(v,quick);
 	#undef REC
+	fcgi_odd_cases(v,quick);
 	length_cross_cases(v,FCGI,quick);
 	vt::rng r(seed*77+3);
 	int nr=quick?150:3000;
@@ -353,6 +359,78 @@ static void length_cross_cases(std::vector<c02case> &v,int proto,bool quick)
 			add(v,(cls+"-with-stdin").c_str(),lens[l].label,pre+fcgi_rec(5,7,body,0)+fcgi_rec(5,7,"",0));
 		}
 	}
+}
+
+// Header blocks that are framed correctly (netstring length right, block ends with NUL and ',' / PARAMS lengths
+// consistent) but structurally odd: an odd number of strings, empty names and values, value-less CONTENT_LENGTH,
+// duplicates, blocks of NULs, trailing names that end exactly at the end of buffers of many sizes.
+static void adds(std::vector<c02case> &v,std::string const &cls,std::string const &bytes)
+{
+	c02case c; c.cls=cls; c.label="any"; c.bytes=bytes; c.end='h'; c.nreq=1; c.seen=true; v.push_back(c);
+}
+static std::string scgi_block(std::vector<std::string> const &strs,std::string const &body="")
+{
+	std::string c; for(size_t i=0;i<strs.size();i++) { c+=strs[i]; c+='\0'; }
+	return dec(c.size())+":"+c+","+body;
+}
+static void scgi_odd_cases(std::vector<c02case> &v,bool quick)
+{
+	char const *base[]={"REQUEST_METHOD","GET","SCRIPT_NAME","/sync","PATH_INFO","/odd","SERVER_PROTOCOL","HTTP/1.0","HTTP_X_A","1","QUERY_STRING","a=1"};
+	std::vector<std::string> b(base,base+12);
+	for(int n=1;n<=11;n+=2) {          // n strings: (n-1)/2 pairs and a trailing name without value
+		std::vector<std::string> t(b.begin(),b.begin()+(n-1)); t.push_back(n==1?"X_TRAILER_WITHOUT_VALUE":"X_TRAILER");
+		adds(v,"scgi-odd-block-trailing-name",scgi_block(t));
+	}
+	// the trailing name ends exactly at the end of header buffers of many sizes (allocator size classes)
+	int sizes[]={24,25,31,32,33,40,48,56,63,64,65,72,88,104,120,127,128,129,136,248,256,264,504,512,520,1024,4096};
+	for(size_t k=0;k<sizeof(sizes)/sizeof(sizes[0]);k+=(quick?2:1)) {
+		std::vector<std::string> t(b.begin(),b.begin()+(sizes[k]>=72?4:0));
+		size_t fixed=0; for(size_t i=0;i<t.size();i++) fixed+=t[i].size()+1;
+		// buffer size = digits + ':' + content + ',' ; solve for the trailing name length
+		for(int L=1;L<sizes[k];L++) {
+			size_t content=fixed+L+1; size_t total=dec(content).size()+1+content+1;
+			if((int)total==sizes[k]) { t.push_back(std::string(L,'T')); adds(v,"scgi-odd-block-trailing-name-at-buffer-end",scgi_block(t)); break; }
+		}
+	}
+	{ std::vector<std::string> t(b.begin(),b.begin()+8); t.push_back("CONTENT_LENGTH"); adds(v,"scgi-odd-block-valueless-content-length",scgi_block(t,"abc")); }
+	{ std::vector<std::string> t(b.begin()+2,b.begin()+8); t.push_back("REQUEST_METHOD"); adds(v,"scgi-odd-block-valueless-request-method",scgi_block(t)); }
+	{ std::vector<std::string> t(b.begin(),b.begin()+8); t.push_back("CONTENT_LENGTH"); t.push_back(""); adds(v,"scgi-odd-block-empty-content-length",scgi_block(t,"abc")); }
+	{ std::vector<std::string> t(b.begin()+2,b.begin()+8); t.push_back("REQUEST_METHOD"); t.push_back(""); adds(v,"scgi-odd-block-empty-request-method",scgi_block(t)); }
+	{ std::vector<std::string> t(b.begin(),b.begin()+8); t.push_back(""); t.push_back("value-of-empty-name"); adds(v,"scgi-odd-block-empty-name",scgi_block(t)); }
+	{ std::vector<std::string> t(b.begin(),b.begin()+8); t.push_back("X_EMPTY"); t.push_back(""); t.push_back("X_AFTER"); t.push_back("z"); adds(v,"scgi-odd-block-empty-value",scgi_block(t)); }
+	{ std::vector<std::string> t(b.begin(),b.begin()+8); t.push_back(""); t.push_back(""); adds(v,"scgi-odd-block-empty-name-and-value",scgi_block(t)); }
+	{ std::vector<std::string> t(b.begin(),b.begin()+8); t.push_back(""); adds(v,"scgi-odd-block-trailing-empty-name",scgi_block(t)); }
+	{ std::vector<std::string> t(20,std::string()); adds(v,"scgi-odd-block-only-nuls",scgi_block(t)); }
+	{ std::vector<std::string> t(21,std::string()); adds(v,"scgi-odd-block-only-nuls",scgi_block(t)); }
+	{ std::vector<std::string> t(1,std::string()); adds(v,"scgi-odd-block-single-nul",scgi_block(t)); }
+	{ std::vector<std::string> t(b.begin(),b.begin()+8); t.push_back("REQUEST_METHOD"); t.push_back("POST"); adds(v,"scgi-odd-block-duplicate-names",scgi_block(t)); }
+	{ std::vector<std::string> t(b.begin(),b.begin()+8); t.push_back("X_D"); t.push_back("1"); t.push_back("X_D"); t.push_back("2"); t.push_back("X_D"); adds(v,"scgi-odd-block-duplicate-names",scgi_block(t)); }
+	{ std::vector<std::string> t(b.begin(),b.begin()+8); t.push_back("CONTENT_LENGTH"); t.push_back("0"); t.push_back("CONTENT_LENGTH"); t.push_back("3"); adds(v,"scgi-odd-block-duplicate-names",scgi_block(t,"abc")); }
+}
+static void fcgi_odd_cases(std::vector<c02case> &v,bool quick)
+{
+	(void)quick;
+	std::vector<kv> b; b.push_back(mk("REQUEST_METHOD","GET")); b.push_back(mk("SCRIPT_NAME","/sync")); b.push_back(mk("PATH_INFO","/odd")); b.push_back(mk("SERVER_PROTOCOL","HTTP/1.0"));
+	std::string beg=fcgi_begin(7,1,0), bp=fcgi_pairs(b,0);
+	struct fin { static std::string req(std::string const &beg,std::string const &params,std::string const &body="") {
+		std::string w=beg+fcgi_rec(4,7,params,0)+fcgi_rec(4,7,"",0); if(!body.empty()) w+=fcgi_rec(5,7,body,0); return w+fcgi_rec(5,7,"",0); } };
+	adds(v,"fcgi-odd-params-empty-value",fin::req(beg,bp+std::string("\x07\x00X_EMPTY",9)));
+	adds(v,"fcgi-odd-params-empty-name",fin::req(beg,bp+std::string("\x00\x05value",7)));
+	adds(v,"fcgi-odd-params-empty-name-and-value",fin::req(beg,bp+std::string("\x00\x00",2)));
+	adds(v,"fcgi-odd-params-empty-name-and-value",fin::req(beg,std::string("\x00\x00",2)));
+	adds(v,"fcgi-odd-params-empty-name-and-value",fin::req(beg,bp+std::string("\x80\x00\x00\x00\x80\x00\x00\x00",8)));
+	adds(v,"fcgi-odd-params-single-zero",fin::req(beg,std::string("\x00",1)));
+	adds(v,"fcgi-odd-params-single-zero",fin::req(beg,bp+std::string("\x00",1)));
+	adds(v,"fcgi-odd-params-trailing-name-length-only",fin::req(beg,bp+std::string("\x09",1)));
+	adds(v,"fcgi-odd-params-trailing-name-without-value-length",fin::req(beg,bp+std::string("\x09\x03X_TRAILER",11)));
+	adds(v,"fcgi-odd-params-valueless-content-length",fin::req(beg,bp+std::string("\x0e\x00" "CONTENT_LENGTH",16),"abc"));
+	adds(v,"fcgi-odd-params-valueless-request-method",fin::req(beg,fcgi_pairs(std::vector<kv>(b.begin()+1,b.end()),0)+std::string("\x0e\x00REQUEST_METHOD",16)));
+	{ std::vector<kv> d=b; d.push_back(mk("REQUEST_METHOD","POST")); d.push_back(mk("X_D","1")); d.push_back(mk("X_D","2")); adds(v,"fcgi-odd-params-duplicate-names",fin::req(beg,fcgi_pairs(d,0))); }
+	{ std::vector<kv> d=b; d.push_back(mk("CONTENT_LENGTH","0")); d.push_back(mk("CONTENT_LENGTH","3")); adds(v,"fcgi-odd-params-duplicate-names",fin::req(beg,fcgi_pairs(d,0),"abc")); }
+	// a name / a value ends exactly at a record end
+	{ std::string ps=bp+std::string("\x03\x03X_Rabc",8); size_t at=bp.size()+2+3;
+	  adds(v,"fcgi-odd-params-name-ends-at-record-end",beg+fcgi_rec(4,7,ps.substr(0,at),0)+fcgi_rec(4,7,ps.substr(at),0)+fcgi_rec(4,7,"",0)+fcgi_rec(5,7,"",0));
+	  adds(v,"fcgi-odd-params-lengths-end-at-record-end",beg+fcgi_rec(4,7,ps.substr(0,bp.size()+2),3)+fcgi_rec(4,7,ps.substr(bp.size()+2),5)+fcgi_rec(4,7,"",0)+fcgi_rec(5,7,"",0)); }
 }
 
 static std::string sev_json(sev const &e)
@@ -537,6 +615,16 @@ static void run_batch(server &S,int proto,long idx,c02case const &cs,bool hooks,
 	}
 	for(size_t i=0;i<ms.size();i++) {
 		member &m=ms[i];
+		std::string marker="MARK-s3cr3t-"+dec(idx)+"-"+std::string(40,'m');
+		if(cs.seen) {   // a connection whose request carries a recognisable marker has just been served and freed
+			absreq pq=R(9300,"GET","/sync","/mark","m=1"); H(pq,"X-Mark",marker);
+			std::string w = proto==HTTP ? http_encode(pq,http_opt()) : proto==SCGI ? scgi_encode(pq,0) : fcgi_encode(pq,fcgi_opt());
+			int c=-1,sd=-1; bool br;
+			if(S.connect(proto,c,sd)) { send_cut(c,sd,w,std::vector<int>(),50,br); close(sd);
+				read_reply(c,5,[&](std::string const &d)->bool { size_t at=0; reply t; return proto==HTTP?parse_http(d,at,false,t):proto==FCGI?parse_fcgi(d,at,t):false; });
+				close(c); }
+			S.barrier(3); ev_take();
+		}
 		emit("{\"e\":\"Reset\"}");
 		vt::J j; j.s("e","Conn").i("idx",idx).s("proto",proto_name[proto]).s("cls",cs.cls).s("label","any").i("nreq",1)
 			.s("end",std::string(1,m.end)).a("cuts",std::vector<int>()).b("hooks",hooks).i("len",m.bytes.size()).i("member",i).s("what",m.what);
@@ -586,6 +674,16 @@ static int c02_main(server &S,char const *pname,long from,long count,bool quick,
 			if(proto==HTTP) { std::string lo=lower(cs.bytes); size_t p=0; while((p=lo.find("keep-alive",p))!=std::string::npos) { nreq++; p++; } }
 			if(proto==FCGI) { for(size_t p=0;p+1<cs.bytes.size();p++) if(cs.bytes[p]==1 && cs.bytes[p+1]==1) nreq++; }
 		}
+		std::string marker="MARK-s3cr3t-"+dec(idx)+"-"+std::string(40,'m');
+		if(cs.seen) {   // a connection whose request carries a recognisable marker has just been served and freed
+			absreq pq=R(9300,"GET","/sync","/mark","m=1"); H(pq,"X-Mark",marker);
+			std::string w = proto==HTTP ? http_encode(pq,http_opt()) : proto==SCGI ? scgi_encode(pq,0) : fcgi_encode(pq,fcgi_opt());
+			int c=-1,sd=-1; bool br;
+			if(S.connect(proto,c,sd)) { send_cut(c,sd,w,std::vector<int>(),50,br); close(sd);
+				read_reply(c,5,[&](std::string const &d)->bool { size_t at=0; reply t; return proto==HTTP?parse_http(d,at,false,t):proto==FCGI?parse_fcgi(d,at,t):false; });
+				close(c); }
+			S.barrier(3); ev_take();
+		}
 		emit("{\"e\":\"Reset\"}");
 		vt::J j; j.s("e","Conn").i("idx",idx).s("proto",proto_name[proto]).s("cls",cs.cls).s("label",cs.label).i("nreq",nreq)
 			.s("end",std::string(1,cs.end)).a("cuts",cuts).b("hooks",hooks).i("len",cs.bytes.size());
@@ -619,6 +717,10 @@ static int c02_main(server &S,char const *pname,long from,long count,bool quick,
 		S.barrier(6);
 		std::vector<sev> evs=ev_take();
 		for(size_t i=0;i<evs.size();i++) { std::string s=sev_json(evs[i]); if(!s.empty()) emit(s); }
+		if(cs.seen && oc.kind=="status" && oc.rp.status==200) {
+			obs o; parse_obs(oc.rp.body,o);
+			emit(vt::J().s("e","Seen").s("proto",proto_name[proto]).b("ok",o.ok).raw("env",jkvs(o.env)).raw("marker",jbytes(marker)).raw("sent",jbytes(cs.bytes)).str());
+		}
 		emit_reply(oc);
 		probe(S,proto,idx);
 		fflush(tr.f);
